@@ -6,6 +6,8 @@ CONSTANTS
   EditDids = {1, 5}
   EditThresholds = {0, 1, 3, 4}
   Payloads = {"project"}
+  ListIds = {}
+  ListThresholds = {}
   JsonDocs <- MCJsonDocs
 INIT Init
 NEXT Next
